@@ -235,8 +235,10 @@ class FormatMachine(MachineBase):
         except UnicodeDecodeError:
             raise Violation(self.ROUNDTRIP_PROP, "%s.dump_writes_what_was_asked" % self.ROUNDTRIP_PROP, "dump-returned-but-file-is-not-text/%s" % self.FORMAT,
                             {"bytes": len(after)})
-        CTX.dump_hashes.append(_sha(text))
-        if self.watching("C08") and verdict == VALID and before is not None and op.get("to") != "handle":
+        ambiguous = verdict == VALID and not s.tainted and self.order_ambiguous(self.expected_loaded(s))
+        if not ambiguous:
+            CTX.dump_hashes.append(_sha(text))
+        if self.watching("C08") and verdict == VALID and before is not None and op.get("to") != "handle" and not ambiguous:
             # the bytes at the destination are a function of the content alone, whatever was at that path before: the same
             # call aimed at a path where nothing was yet writes the same bytes
             fresh = path + ".c08-fresh"
@@ -389,7 +391,8 @@ class FormatMachine(MachineBase):
         if verdict == INVALID:
             raise Violation("C06", "C06.invalid_object_written", "written/%s/%s" % (self.FORMAT, why),
                             {"why": why, "via": "dumps", "chars": len(text)})
-        CTX.dump_hashes.append(_sha(text))
+        if not (verdict == VALID and not s.tainted and self.order_ambiguous(self.expected_loaded(s))):
+            CTX.dump_hashes.append(_sha(text))
         self.check_canonical(text)
         self.file_invariants(s, text, op)
         if verdict == VALID:
@@ -868,7 +871,10 @@ class FormatMachine(MachineBase):
             v, _ = self.validity(s)
             if v != VALID:
                 continue
-            groups.setdefault(cjson(self.expected_loaded(s)), []).append((k, s))
+            exp = self.expected_loaded(s)
+            if self.order_ambiguous(exp):
+                continue        # outside C08's quantifier (e.g. two images of one cell sharing a path)
+            groups.setdefault(cjson(exp), []).append((k, s))
         compared = 0
         for key, members in sorted(groups.items()):
             if len(members) < 2:
@@ -902,6 +908,8 @@ class FormatMachine(MachineBase):
             return "noop"
         if self.validity(s)[0] != VALID:
             return "noop-invalid"
+        if self.order_ambiguous(self.expected_loaded(s)):
+            return "noop-order-ambiguous"       # outside C08's quantifier
         try:
             texts = [self.dumps_for_cmp(s, op) for _ in range(op.get("n", 2))]
         except Exception as e:
